@@ -1706,6 +1706,58 @@ static void jdf_generate_structure(jdf_t *jdf)
     string_arena_free(sa2);
 }
 
+/**
+ * Ranges can be ascending (positive step) or descending (negative step), as
+ * jdf_generate_internal_init already assumes when it counts the tasks. The two
+ * helpers below generate the direction-aware tests every other loop over a range
+ * must use. If the step is a constant the direction is resolved now (and the
+ * code generated for ascending ranges is unchanged), otherwise it is resolved
+ * when the generated code runs.
+ *
+ * jdf_dump_range_cond: the condition under which the iterator var is still
+ *   inside the range (the termination condition of a for loop over the range).
+ * jdf_dump_range_contains: the condition under which the value var lies between
+ *   the two bounds of the range.
+ * The result is built in sa, which must be different from info->sa.
+ */
+static char *jdf_dump_range_cond(string_arena_t *sa, const char *var,
+                                 const jdf_expr_t *range, expr_info_t *info)
+{
+    assert( JDF_RANGE == range->op );
+    assert( sa != info->sa );
+    string_arena_init(sa);
+    if( JDF_OP_IS_CST(range->jdf_ta3->op) ) {
+        string_arena_add_string(sa, "%s %s %s", var, (range->jdf_ta3->jdf_cst >= 0) ? "<=" : ">=",
+                                dump_expr((void**)range->jdf_ta2, info));
+    } else {
+        string_arena_add_string(sa, "((%s) >= 0) ? ", dump_expr((void**)range->jdf_ta3, info));
+        string_arena_add_string(sa, "(%s <= %s) : ", var, dump_expr((void**)range->jdf_ta2, info));
+        string_arena_add_string(sa, "(%s >= %s)", var, dump_expr((void**)range->jdf_ta2, info));
+    }
+    return string_arena_get_string(sa);
+}
+
+static char *jdf_dump_range_contains(string_arena_t *sa, const char *var,
+                                     const jdf_expr_t *range, expr_info_t *info)
+{
+    const char *lower = ">=", *upper = "<=";
+    assert( JDF_RANGE == range->op );
+    assert( sa != info->sa );
+    string_arena_init(sa);
+    if( JDF_OP_IS_CST(range->jdf_ta3->op) ) {
+        if( range->jdf_ta3->jdf_cst < 0 ) { lower = "<="; upper = ">="; }
+        string_arena_add_string(sa, "(%s %s (%s))", var, lower, dump_expr((void**)range->jdf_ta1, info));
+        string_arena_add_string(sa, " && (%s %s (%s))", var, upper, dump_expr((void**)range->jdf_ta2, info));
+    } else {
+        string_arena_add_string(sa, "(((%s) >= 0) ? ", dump_expr((void**)range->jdf_ta3, info));
+        string_arena_add_string(sa, "((%s >= (%s))", var, dump_expr((void**)range->jdf_ta1, info));
+        string_arena_add_string(sa, " && (%s <= (%s))) : ", var, dump_expr((void**)range->jdf_ta2, info));
+        string_arena_add_string(sa, "((%s <= (%s))", var, dump_expr((void**)range->jdf_ta1, info));
+        string_arena_add_string(sa, " && (%s >= (%s))))", var, dump_expr((void**)range->jdf_ta2, info));
+    }
+    return string_arena_get_string(sa);
+}
+
 static int jdf_expr_is_range( const jdf_expr_t *e )
 {
     jdf_expr_t *ld;
@@ -2338,6 +2390,7 @@ static void jdf_generate_ctl_gather_compute(const jdf_t *jdf, const jdf_function
     string_arena_t *sa1 = string_arena_new(64);
     string_arena_t *sa2 = string_arena_new(64);
     string_arena_t *sa3 = string_arena_new(64);
+    string_arena_t *sa_cond = string_arena_new(64);
     const jdf_expr_t *params = call->parameters;
     expr_info_t info1 = EMPTY_EXPR_INFO, info2 = EMPTY_EXPR_INFO, info3 = EMPTY_EXPR_INFO;
     const jdf_expr_t *le;
@@ -2408,13 +2461,13 @@ static void jdf_generate_ctl_gather_compute(const jdf_t *jdf, const jdf_function
             coutput("%s  {\n"
                     "%s    int %s;\n"
                     "%s    for(%s  = %s;\n"
-                    "%s        %s <= %s;\n"
+                    "%s        %s;\n"
                     "%s        %s += %s) {\n"
                     "%s      "JDF2C_NAMESPACE"_tmp_locals.ldef[%d].value = %s;\n",
                     indent(nbopen),
                     indent(nbopen), ld->alias,
                     indent(nbopen), ld->alias, dump_expr( (void**)ld->jdf_ta1, &info1 ),
-                    indent(nbopen), ld->alias, dump_expr( (void**)ld->jdf_ta2, &info2 ),
+                    indent(nbopen), jdf_dump_range_cond(sa_cond, ld->alias, ld, &info2),
                     indent(nbopen), ld->alias, dump_expr( (void**)ld->jdf_ta3, &info3 ),
                     indent(nbopen), ld->ldef_index, ld->alias);
             nbopen+=2;
@@ -2429,16 +2482,22 @@ static void jdf_generate_ctl_gather_compute(const jdf_t *jdf, const jdf_function
     }
     for(pl = targetf->parameters, le = params; NULL != le; pl = pl->next, le = le->next) {
         if( le->op == JDF_RANGE ) {
+            char *iterator;
+            if( asprintf(&iterator, "%s_%s", targetf->fname, pl->name) <= 0 ) {
+                fprintf(stderr, "Cannot allocate internal memory for the PTG compiler\n");
+                exit(-1);
+            }
             coutput("%s  {\n"
-                    "%s    int %s_%s;\n"
-                    "%s    for(%s_%s  = %s;\n"
-                    "%s        %s_%s <= %s;\n"
-                    "%s        %s_%s += %s) {\n",
+                    "%s    int %s;\n"
+                    "%s    for(%s  = %s;\n"
+                    "%s        %s;\n"
+                    "%s        %s += %s) {\n",
                     indent(nbopen),
-                    indent(nbopen), targetf->fname, pl->name,
-                    indent(nbopen), targetf->fname, pl->name, dump_expr( (void**)le->jdf_ta1, &info1 ),
-                    indent(nbopen), targetf->fname, pl->name, dump_expr( (void**)le->jdf_ta2, &info2 ),
-                    indent(nbopen), targetf->fname, pl->name, dump_expr( (void**)le->jdf_ta3, &info3 ));
+                    indent(nbopen), iterator,
+                    indent(nbopen), iterator, dump_expr( (void**)le->jdf_ta1, &info1 ),
+                    indent(nbopen), jdf_dump_range_cond(sa_cond, iterator, le, &info2),
+                    indent(nbopen), iterator, dump_expr( (void**)le->jdf_ta3, &info3 ));
+            free(iterator);
             nbopen+=2;
         } else {
             coutput("%s  int %s_%s = %s;\n"
@@ -2465,6 +2524,7 @@ static void jdf_generate_ctl_gather_compute(const jdf_t *jdf, const jdf_function
     string_arena_free(sa1);
     string_arena_free(sa2);
     string_arena_free(sa3);
+    string_arena_free(sa_cond);
 }
 
 static void jdf_generate_direct_data_function(const jdf_t *jdf, const char *mem,
@@ -2856,6 +2916,7 @@ static void jdf_generate_direct_input_conditions(const jdf_t *jdf, const jdf_fun
     jdf_dep_t *dep;
     expr_info_t info = EMPTY_EXPR_INFO;
     string_arena_t *sa = string_arena_new(64);
+    string_arena_t *sa_cond = string_arena_new(64);
     int write_next_label, continue_if_true, goto_if_false, goto_if_true, skip_continue;
 
     coutput("  %s "JDF2C_NAMESPACE"_tmp_locals = *(%s*)&this_task->locals;\n"
@@ -2968,8 +3029,8 @@ static void jdf_generate_direct_input_conditions(const jdf_t *jdf, const jdf_fun
                     if(JDF_RANGE == ld->op) {
                         coutput("    for( %s = %s;",
                                 ld->alias, dump_expr((void**)ld->jdf_ta1, &info));
-                        coutput("(!__active_dep_found) && (%s <= %s); %s+=",
-                                ld->alias, dump_expr((void**)ld->jdf_ta2, &info), ld->alias);
+                        coutput("(!__active_dep_found) && (%s); %s+=",
+                                jdf_dump_range_cond(sa_cond, ld->alias, ld, &info), ld->alias);
                         coutput("%s) {\n"
                                 "       "JDF2C_NAMESPACE"_tmp_locals.ldef[%d].value = %s;\n",
                                 dump_expr((void**)ld->jdf_ta3, &info),
@@ -3024,6 +3085,7 @@ force_continue_generation:
     }
 
     string_arena_free(sa);
+    string_arena_free(sa_cond);
 }
 
 /**
@@ -3099,8 +3161,17 @@ static void jdf_generate_startup_tasks(const jdf_t *jdf, const jdf_function_entr
         if(vl->expr->op == JDF_RANGE) {
             coutput("%s  for(this_task->locals.%s.value = %s = %s;\n",
                     indent(nesting), vl->name, vl->name, dump_expr((void**)vl->expr->jdf_ta1, &info1));
-            coutput("%s      this_task->locals.%s.value <= %s;\n",
-                    indent(nesting), vl->name, dump_expr((void**)vl->expr->jdf_ta2, &info1));
+            {
+                /* the iterator of the loop is the saved local (the loop can be resumed), not the C variable */
+                char *iterator;
+                if( asprintf(&iterator, "this_task->locals.%s.value", vl->name) <= 0 ) {
+                    fprintf(stderr, "Cannot allocate internal memory for the PTG compiler\n");
+                    exit(-1);
+                }
+                coutput("%s      %s;\n",
+                        indent(nesting), jdf_dump_range_cond(sa2, iterator, vl->expr, &info1));
+                free(iterator);
+            }
             coutput("%s      this_task->locals.%s.value += %s, %s = this_task->locals.%s.value) {\n",
                     indent(nesting), vl->name, dump_expr((void**)vl->expr->jdf_ta3, &info1), vl->name, vl->name);
             nesting++;
@@ -3115,8 +3186,8 @@ static void jdf_generate_startup_tasks(const jdf_t *jdf, const jdf_function_entr
                             indent(nesting), ld->alias,
                             indent(nesting), ld->alias,
                             indent(nesting), ld->alias, dump_expr((void**)ld->jdf_ta1, &info1));
-                    coutput("%s <= %s;",
-                            ld->alias, dump_expr((void**)ld->jdf_ta2, &info1));
+                    coutput("%s;",
+                            jdf_dump_range_cond(sa2, ld->alias, ld, &info1));
                     coutput("%s += %s) {\n",
                             ld->alias, dump_expr((void**)ld->jdf_ta3, &info1));
                     coutput("%s      this_task->locals.ldef[%d].value = %s;\n",
@@ -3612,7 +3683,7 @@ static void jdf_generate_internal_init(const jdf_t *jdf, const jdf_function_entr
                                 indent(nesting), ld->alias,
                                 indent(nesting), ld->alias,
                                 indent(nesting), ld->ldef_index, ld->alias, dump_expr((void**)ld->jdf_ta1, &info));
-                        coutput(" %s <= %s;", ld->alias, dump_expr((void**)ld->jdf_ta2, &info));
+                        coutput(" %s;", jdf_dump_range_cond(sa2, ld->alias, ld, &info));
                         coutput(" assignments.ldef[%d].value = %s += %s ) { /* Iterator on %s */ \n",
                                 ld->ldef_index, ld->alias, dump_expr((void**)ld->jdf_ta3, &info), ld->alias);
                         nesting+=2;
@@ -7343,10 +7414,11 @@ static char *jdf_dump_context_assignment(string_arena_t *sa_open,
     expr_info_t local_info = EMPTY_EXPR_INFO, dest_info = EMPTY_EXPR_INFO;
     int nbparam_given, nbparam_required, i, nbopen;
     const jdf_function_entry_t *targetf;
-    string_arena_t *sa2, *sa1, *sa_close;
+    string_arena_t *sa2, *sa1, *sa_close, *sa_cond;
     jdf_variable_list_t *vl;
     jdf_param_list_t *nl;
     jdf_expr_t *el;
+    char *target_param;
 
     (void)sourcef;
 
@@ -7376,6 +7448,7 @@ static char *jdf_dump_context_assignment(string_arena_t *sa_open,
     local_info.assignments = "&"JDF2C_NAMESPACE"_tmp_locals";
 
     sa_close = string_arena_new(64);
+    sa_cond = string_arena_new(64);
 
     nbopen = 0;
 
@@ -7421,8 +7494,8 @@ static char *jdf_dump_context_assignment(string_arena_t *sa_open,
                 string_arena_add_string(sa_open,
                                         "%s%sfor( %s = %s;",
                                         prefix, indent(nbopen), ld->alias, dump_expr((void**)ld->jdf_ta1, &local_info));
-                string_arena_add_string(sa_open, "%s <= %s; %s+=",
-                                        ld->alias, dump_expr((void**)ld->jdf_ta2, &local_info), ld->alias);
+                string_arena_add_string(sa_open, "%s; %s+=",
+                                        jdf_dump_range_cond(sa_cond, ld->alias, ld, &local_info), ld->alias);
                 string_arena_add_string(sa_open, "%s) {\n"
                                         "%s%s  "JDF2C_NAMESPACE"_tmp_locals.ldef[%d].value = %s;\n",
                                         dump_expr((void**)ld->jdf_ta3, &local_info),
@@ -7498,8 +7571,8 @@ static char *jdf_dump_context_assignment(string_arena_t *sa_open,
                         string_arena_add_string(sa_open,
                                                 "%s%s  for( %s = %s;",
                                                 prefix, indent(nbopen), ld->alias, dump_expr((void**)ld->jdf_ta1, &local_info));
-                        string_arena_add_string(sa_open, "%s <= %s; %s+=",
-                                                ld->alias, dump_expr((void**)ld->jdf_ta2, &local_info), ld->alias);
+                        string_arena_add_string(sa_open, "%s; %s+=",
+                                                jdf_dump_range_cond(sa_cond, ld->alias, ld, &local_info), ld->alias);
                         string_arena_add_string(sa_open, "%s) {\n"
                                                 "%s%s  "JDF2C_NAMESPACE"_tmp_locals.ldef[%d].value = %s;\n",
                                                 dump_expr((void**)ld->jdf_ta3, &local_info),
@@ -7513,6 +7586,10 @@ static char *jdf_dump_context_assignment(string_arena_t *sa_open,
                 }
             }
 
+            if( asprintf(&target_param, "%s_%s", targetf->fname, nl->name) <= 0 ) {
+                fprintf(stderr, "Cannot allocate internal memory for the PTG compiler\n");
+                exit(-1);
+            }
             if( JDF_RANGE == el->op ) {
                 string_arena_add_string(sa_open,
                                         "%s%sint %s_%s;\n",
@@ -7521,8 +7598,8 @@ static char *jdf_dump_context_assignment(string_arena_t *sa_open,
                 string_arena_add_string(sa_open,
                                         "%s%sfor( %s_%s = %s;",
                                         prefix, indent(nbopen), targetf->fname, nl->name, dump_expr((void**)el->jdf_ta1, &local_info));
-                string_arena_add_string(sa_open, "%s_%s <= %s; %s_%s+=",
-                                        targetf->fname, nl->name, dump_expr((void**)el->jdf_ta2, &local_info), targetf->fname, nl->name);
+                string_arena_add_string(sa_open, "%s; %s_%s+=",
+                                        jdf_dump_range_cond(sa_cond, target_param, el, &local_info), targetf->fname, nl->name);
                 string_arena_add_string(sa_open, "%s) {\n",
                                         dump_expr((void**)el->jdf_ta3, &local_info));
                 nbopen++;
@@ -7533,14 +7610,11 @@ static char *jdf_dump_context_assignment(string_arena_t *sa_open,
             }
 
             if( vl->expr->op == JDF_RANGE ) {
-                /* This is a place where we consider iterators must be from low to high */
+                /* The bounds of a descending range are given from high to low */
                 string_arena_add_string(sa_open,
-                                        "%s%s  if( (%s_%s >= (%s))",
-                                        prefix, indent(nbopen), targetf->fname, nl->name,
-                                        dump_expr((void**)vl->expr->jdf_ta1, &dest_info));
-                string_arena_add_string(sa_open, " && (%s_%s <= (%s)) ) {\n",
-                                        targetf->fname, nl->name,
-                                        dump_expr((void**)vl->expr->jdf_ta2, &dest_info));
+                                        "%s%s  if( %s ) {\n",
+                                        prefix, indent(nbopen),
+                                        jdf_dump_range_contains(sa_cond, target_param, vl->expr, &dest_info));
                 nbopen++;
             } else if( NULL != vl->expr->local_variables ) {
                 string_arena_add_string(sa_open, "%s%s  /* We cannot check if %s_%s is within the iterator space, because that space is defined with local indices. We need to trust */\n",
@@ -7559,6 +7633,7 @@ static char *jdf_dump_context_assignment(string_arena_t *sa_open,
                                     "%s%s  ncc->locals.%s.value = %s_%s;\n",
                                     prefix, indent(nbopen), nl->name,
                                     targetf->fname, nl->name);
+            free(target_param);
         }
     }
 
@@ -7619,6 +7694,7 @@ static char *jdf_dump_context_assignment(string_arena_t *sa_open,
     string_arena_add_string(sa_open, "%s", string_arena_get_string(sa_close));
 
     string_arena_free(sa_close);
+    string_arena_free(sa_cond);
     string_arena_free(sa1);
     string_arena_free(sa2);
 
@@ -7897,8 +7973,8 @@ jdf_generate_code_iterate_successors_or_predecessors(const jdf_t *jdf,
                         string_arena_add_string(sa_coutput,
                                                 "%s  for( %s = %s;",
                                                 indent(nb_open_ldef), ld->alias, dump_expr((void**)ld->jdf_ta1, &info));
-                        string_arena_add_string(sa_coutput, "%s <= %s; %s+=",
-                                                ld->alias, dump_expr((void**)ld->jdf_ta2, &info), ld->alias);
+                        string_arena_add_string(sa_coutput, "%s; %s+=",
+                                                jdf_dump_range_cond(sa_temp, ld->alias, ld, &info), ld->alias);
                         string_arena_add_string(sa_coutput, "%s) {\n"
                                                 "%s  "JDF2C_NAMESPACE"_tmp_locals.ldef[%d].value = %s;\n",
                                                 dump_expr((void**)ld->jdf_ta3, &info),
